@@ -391,12 +391,13 @@ func (db *DB) insertOrUpdate(s *Schema, o Object, commit bool) (err error) {
 		return
 	}
 
-	if s.mustCache() {
-		db.cache.put(o)
-	}
-
 	if err = s.index(o); err != nil {
 		return
+	}
+
+	// cache only what has been accepted by the index constraints
+	if s.mustCache() {
+		db.cache.put(o)
 	}
 
 	if s.asyncWritesEnabled() {
